@@ -60,9 +60,17 @@ theorem structural_document_roundtrip (evs : List Ev) (h : evs.all simple = true
 
 /-- non-vacuity: a nested document with a marker, a reference, a record, integers of several
     widths and signs, a comment and padding satisfies the hypothesis -/
-example : ([Ev.map, .marker [97], .list, .int (-5), .stringlike .string [104, 105], .stringlike .rid (List.replicate 40 120), .bigInt (some (-(2 ^ 200))), .posInt 70000, .negInt 0, .endContainer, .true_, .refLocal [97],
+example : ([Ev.map, .marker [97], .list, .int (-5), .stringlike .string [104, 105], .stringlike .rid (List.replicate 40 120),
+            .posInt 70000, .negInt 0, .endContainer, .true_, .refLocal [97],
             .comment false [120], .padding, .posInt (2 ^ 64 - 1), .record [114, 49], .null, .endContainer,
             .endContainer] : List Ev).all simple = true := by decide
+
+/-- a 200-bit negative integer is in the fragment too -/
+example : simple (.bigInt (some (-(2 ^ 200)))) = true := by
+  simp only [simple, decide_eq_true_eq]
+  have : (-(2 : Int) ^ 200).natAbs = 2 ^ 200 := by simp [Int.natAbs_neg, Int.natAbs_pow]
+  rw [this]
+  exact Nat.pow_lt_pow_right (by decide) (by decide)
 
 /-- non-vacuity: the hypotheses are met by boundary values -/
 example : (281474976710656 : Nat) < 2 ^ 64 ∧ renormPos 100 = .int 100 ∧ renormPos 101 = .posInt 101 := by
